@@ -127,7 +127,12 @@ SweepChecks(w, sw) ==
           Chk("C03", "sweep-registered-query-is-matchset-once", \A i \in DOMAIN sw : okCached(sw[i])),
           (* C05: a relation filter with target T - registered or not - selects exactly the entities with target T *)
           Chk("C05", "sweep-relation-filter-selects-its-target",
-              \A i \in DOMAIN sw : Core(sw[i].f).k = "rel" => (okCached(sw[i]) /\ okAbs(sw[i]))) >>
+              \A i \in DOMAIN sw : Core(sw[i].f).k = "rel" => (okCached(sw[i]) /\ okAbs(sw[i]))),
+          (* C06: storage retired and reused for another target - no entity shows up under a target it was not assigned *)
+          (* to, through the original or the registered relation filter                                                 *)
+          Chk("C06", "sweep-nothing-foreign-under-a-target",
+              \A i \in DOMAIN sw : Core(sw[i].f).k = "rel" =>
+                  (OpenRel(w, sw[i].f) \/ (Range(sw[i].cached) \cup Range(sw[i].orig)) \subseteq QuerySet(w, sw[i].f))) >>
 
 ---------------------------------------------------------------------------
 (* Event checks *)
